@@ -122,7 +122,7 @@ pub fn filler(r: usize) -> Vec<u8> {
     if r < 2 { return vec![0; r] }
     if r < 11 { return der::octets(&vec![0u8; r - 2]) }
     let fit = |r: usize| -> Option<Vec<u8>> {
-        for k in (r.saturating_sub(16)..=r.saturating_sub(11)).rev() { let a = attr(k); if a.len() == r { return Some(a) } }
+        for k in (r.saturating_sub(24)..=r.saturating_sub(11)).rev() { let a = attr(k); if a.len() == r { return Some(a) } }
         None
     };
     if let Some(a) = fit(r) { return a }
